@@ -20,6 +20,10 @@ impl HasGenValueInfo for CfgNode {
         self.node().gen_memory_value()
     }
 
+    fn kill_memory_values(&self) -> Vec<MemoryLocation> {
+        self.node().kill_memory_values()
+    }
+
     fn gen_reg_value(&self) -> Option<(Register, AvailableValue)> {
         self.node().gen_reg_value()
     }
